@@ -67,7 +67,7 @@ package oj
 // still alive after base+k bytes, and either byte k kills it (first offending
 // byte) or k is the end of the last buffer and the text is incomplete.
 //@ pred VErr(pe, k, qi, S, base, n, last) = 0 <= k && k <= n
-//@     && spec.Run(qi, S, base+k).Ph != spec.Err
+//@     && spec.Run(qi, S, base+k).Ph != spec.Err && spec.Run(qi, S, base+k).Off == base+k
 //@     && pe.Line == spec.Run(qi, S, base+k).Line && pe.Column == base + k - spec.Run(qi, S, base+k).LastNL
 //@     && (k < n ==> spec.Run(qi, S, base+k+1).Ph == spec.Err)
 //@     && (k == n ==> last && !spec.AcceptEOF(spec.Run(qi, S, base+k)))
@@ -93,7 +93,8 @@ package oj
 //@     split spec.Run(qi, S, base+off).Ph in spec.DocStart, spec.DocEnd, spec.ArrFirst, spec.ArrNext, spec.ObjFirst, spec.ObjKey, spec.ObjColon,
 //@        spec.ObjValue, spec.After, spec.Str, spec.StrEsc, spec.StrU, spec.NumNeg, spec.NumZero, spec.NumInt, spec.NumDot, spec.NumFrac,
 //@        spec.NumE, spec.NumESign, spec.NumExp, spec.Lit
-//@     use spec.Run.unfold(qi, S, base+off, 5)
+//@     use spec.Run.unfold(qi, S, base+off)
+//@     use S[base+off] == 'n' || S[base+off] == 't' || S[base+off] == 'f' ==> spec.Run.unfold(qi, S, base+off+1, 4)
 //@   loop 1
 //@     let o1 = off + 1
 //@     let i0 = i
@@ -148,6 +149,10 @@ package oj
 
 //@ pred EqState(a, b) = EqButOff(a, b) && a.Off == b.Off
 
+// The reported position designates offset ErrorAt of the text: line = 1 + newlines before it, column = bytes since the last newline.
+//@ pred PosOK(pe, q0, S, n) = pe.Line == spec.Run(q0, S, spec.ErrorAt(spec.Run(q0, S, n), n)).Line
+//@     && pe.Column == spec.ErrorAt(spec.Run(q0, S, n), n) - spec.Run(q0, S, spec.ErrorAt(spec.Run(q0, S, n), n)).LastNL
+
 //@ lemma ErrAbsorbing(q spec.JState, S seq, n int, m int) [C01 C09] by induction on m:
 //@     0 <= n && n <= m && spec.Run(q, S, n).Ph == spec.Err ==> EqState(spec.Run(q, S, m), spec.Run(q, S, n))
 //@   use spec.Run.unfold(q, S, m)
@@ -166,6 +171,10 @@ package oj
 //@   let hasBOM = 2 < len(buf) && S[0] == 0xEF && S[1] == 0xBB && S[2] == 0xBF
 //@   ensures [C01 C07 accept] !hasBOM ==> (err == nil <==> spec.AcceptEOF(spec.Run(spec.Init(!p.OnlyOne), S, len(buf))))
 //@   ensures [C01 C07 accept-bom] hasBOM ==> (err == nil <==> spec.AcceptEOF(spec.Run(spec.Init(!p.OnlyOne), T, len(buf) - 3)))
+//@   ensures [C09 pos] !hasBOM && err != nil && S[0] != 0xEF ==> typeis(err, ParseError, ptr) && PosOK(as(err, ParseError), spec.Init(!p.OnlyOne), S, len(buf))
+//@   ensures [C09 pos-bom] hasBOM && err != nil ==> typeis(err, ParseError, ptr) && PosOK(as(err, ParseError), spec.Init(!p.OnlyOne), T, len(buf) - 3)
+//@   ensures [C09 pos-ef] !hasBOM && err != nil && 0 < len(buf) && S[0] == 0xEF ==> typeis(err, ParseError, ptr) && PosOK(as(err, ParseError), spec.Init(!p.OnlyOne), S, len(buf))
+//@   use spec.Run.unfold(spec.Init(!p.OnlyOne), S, as(err, ParseError).Column + p.noff), spec.Run.unfold(spec.Init(!p.OnlyOne), T, as(err, ParseError).Column + p.noff)
 //@   use ErrAbsorbing(spec.Init(!p.OnlyOne), S, as(err, ParseError).Column + p.noff + 1, len(buf))
 //@   use spec.Run.unfold(spec.Init(!p.OnlyOne), S, 0), ErrAbsorbing(spec.Init(!p.OnlyOne), S, 1, len(buf))
 //@   use ErrAbsorbing(spec.Init(!p.OnlyOne), T, as(err, ParseError).Column + p.noff + 1, len(buf) - 3)
